@@ -104,6 +104,18 @@ func c14Scenario(c *fw.Ctx, s int) {
 		pubNode = append(pubNode, pn)
 	}
 	cl.Quiesce() // gossip barrier: every node knows every subscription
+	if s%2 == 1 {
+		// full-state exchanges echo entries the receiver already holds; they must change nothing
+		for _, a := range nodes {
+			for _, b := range nodes {
+				if a != b {
+					cl.PushPull(a, b)
+				}
+			}
+		}
+		cl.Quiesce()
+		c.Observe("scenarios_with_push_pull_echo", 1)
+	}
 	placement := []string{}
 	for i, su := range subs {
 		placement = append(placement, fmt.Sprintf("sub%d@n%d%v", i, su.node+1, su.filters))
